@@ -103,8 +103,10 @@ def orderOf (n : Nat) : Order := if n = 3 then .cubic else if n = 5 then .quinti
 structure OptObj (α : Type) where
   order : Order
   dim : Nat
-  tmKind : Nat       -- 0 QuadInv, 1 Identity, 2 Affine(2, 1/2)
-  smKind : Nat       -- 0 Identity, 1 Paraboloid
+  tmType : Nat       -- 0 QuadInv, 1 Identity, 2 Affine
+  smType : Nat       -- 0 Identity, 1 Paraboloid
+  tmInst : Nat := 0  -- 0 the object's own default map, ≥1 a user-supplied instance
+  smInst : Nat := 0
   refTimes : List α := []
   refWaypoints : List (Vec α) := []
   refBC : BC α
@@ -132,9 +134,10 @@ def pBC (d : Nat) : P (BC α) := do
 
 def bgFlat (b : BGradND α) : List α := b.p ++ b.v ++ b.a ++ b.j
 
-/-- `spline slot order D N mode t0 times… P… bc… ng [gC… gT…] ne (t k)…` -/
+/-- `spline slot qorder order D N mode t0 times… P… bc… ng [gC… gT…] ne (t k)…` -/
 def opSpline (id : String) : P (List String) := do
   let _slot ← pInt
+  let _qorder ← pNat
   let o := orderOf (← pNat)
   let d ← pNat
   let n ← pNat
@@ -235,6 +238,18 @@ def opPP (st : St α) (id op : String) : P (St α × List String) := do
   | "pp_seq" =>
       let a : α ← pNum; let b : α ← pNum; let dt : α ← pNum
       return (st, [s!"{id} seq {rs (PPoly.timeSequence a b dt)}"])
+  | "pp_len" =>
+      let slot ← pNat; let a : α ← pNum; let b : α ← pNum; let dt : α ← pNum
+      match getSlot st.pp slot with
+      | none => return (st, [s!"{id} noslot"])
+      | some p =>
+          let (p', len) := p.trajLength Scalar.sqrt a b dt
+          return ({ st with pp := putSlot st.pp slot p' }, [s!"{id} len {rs [len]}"])
+  | "pp_assign" =>
+      let slot ← pNat; let ns ← pNat
+      match getSlot st.pp slot with
+      | none => return (st, [s!"{id} noslot"])
+      | some p => return ({ st with pp := putSlot st.pp ns p }, [ppInfo id p])
   | "pp_zero" =>
       let ns ← pNat; let d ← pNat; let fo ← pInt; let nb ← pNat; let bps : List α ← pNums nb; let nc ← pInt
       let p := PPoly.zero d (foOf fo) bps nc
@@ -245,11 +260,15 @@ def opPP (st : St α) (id op : String) : P (St α × List String) := do
       return ({ st with pp := putSlot st.pp ns p }, [ppInfo id p])
   | _ => return (st, [s!"{id} badop"])
 
-def tmOf (k : Nat) : TimeMap α :=
-  if k == 0 then quadInvTimeMap Scalar.sqrt else if k == 1 then identityTimeMap
-  else affineTimeMap (lit 2) (litq 1 2)
+/-- time map of (type, instance): the harness's user instance of the affine map is `T = τ/2 + 1/4`,
+the default-constructed one `T = 2τ + 1/2` -/
+def tmOf (ty inst : Nat) : TimeMap α :=
+  if ty == 0 then quadInvTimeMap Scalar.sqrt else if ty == 1 then identityTimeMap
+  else if inst == 1 then affineTimeMap (litq 1 2) (litq 1 4) else affineTimeMap (lit 2) (litq 1 2)
 
-def smOf (k d : Nat) : SpatialMap α := if k == 0 then identitySpatialMap d else paraboloidMap d
+/-- spatial map of (type, instance): user instance 1 constrains even point indices, default / instance 2 odd ones -/
+def smOf (ty inst d : Nat) : SpatialMap α :=
+  if ty == 0 then identitySpatialMap d else paraboloidMap d (if inst == 1 then 0 else 1)
 
 def pFlags : P Flags := do
   let b ← pNat
@@ -259,7 +278,7 @@ def pFlags : P Flags := do
 def OptObj.cfg (o : OptObj α) : Config α :=
   { order := o.order, dim := o.dim, refTimes := o.refTimes, refWaypoints := o.refWaypoints, refBC := o.refBC,
     startTime := o.startTime, flags := o.flags, rho := o.rho, steps := o.steps,
-    tm := tmOf o.tmKind, sm := smOf o.smKind o.dim }
+    tm := tmOf o.tmType o.tmInst, sm := smOf o.smType o.smInst o.dim }
 
 def pCostSpec : P (CostSpec α) := do
   let ta ← pNum; let tb ← pNum; let tc ← pNum
@@ -280,9 +299,17 @@ def opOpt (st : St α) (id op : String) : P (St α × List String) := do
   match op with
   | "opt_new" =>
       let slot ← pNat; let o := orderOf (← pNat); let d ← pNat; let tk ← pNat; let sk ← pNat
-      let obj : OptObj α := { order := o, dim := d, tmKind := tk, smKind := sk, refBC := BC.zero d,
+      let obj : OptObj α := { order := o, dim := d, tmType := tk, smType := sk, refBC := BC.zero d,
                               startTime := lit 0, rho := lit 0 }
       return ({ st with opt := putSlot st.opt slot obj }, [s!"{id} ok"])
+  | "opt_destroy" =>
+      let slot ← pNat
+      return ({ st with opt := st.opt.filter (·.1 != slot) }, [s!"{id} ok"])
+  | "opt_assign" =>
+      let slot ← pNat; let ns ← pNat
+      match getSlot st.opt slot with
+      | none => return (st, [s!"{id} noslot"])
+      | some o => return ({ st with opt := putSlot st.opt ns o }, [s!"{id} ok"])
   | "opt_copy" =>
       let slot ← pNat; let ns ← pNat
       match getSlot st.opt slot with
@@ -326,7 +353,7 @@ def opOpt (st : St α) (id op : String) : P (St α × List String) := do
       let slot ← pNat; let tk ← pNat; let sk ← pNat
       match getSlot st.opt slot with
       | none => return (st, [s!"{id} noslot"])
-      | some o => return ({ st with opt := putSlot st.opt slot { o with tmKind := tk, smKind := sk } }, [s!"{id} ok"])
+      | some o => return ({ st with opt := putSlot st.opt slot { o with tmInst := tk, smInst := sk } }, [s!"{id} ok"])
   | "opt_rho" =>
       let slot ← pNat; let r : α ← pNum
       match getSlot st.opt slot with
@@ -351,8 +378,8 @@ def opOpt (st : St α) (id op : String) : P (St α × List String) := do
       | none => return (st, [s!"{id} noslot"])
       | some o => return (st, [s!"{id} x {rs (initialGuess o.cfg)}"])
   | "opt_eval" =>
-      -- slot rec nx x… costspec
-      let slot ← pNat; let recS ← pNat; let nx ← pNat; let x : List α ← pNums nx
+      -- slot rec ws nx x… costspec [executor spec, ignored by the model]
+      let slot ← pNat; let recS ← pNat; let _ws ← pInt; let nx ← pNat; let x : List α ← pNums nx
       let cs : CostSpec α ← pCostSpec
       match getSlot st.opt slot with
       | none => return (st, [s!"{id} noslot"])
@@ -369,8 +396,8 @@ def opOpt (st : St α) (id op : String) : P (St α × List String) := do
                s!"{id} sampleseg {" ".intercalate (r.samples.map (fun s => toString s.seg))}"] else []
           return (st, base ++ smp)
   | "opt_check" =>
-      -- slot nx x… costspec eps tol
-      let slot ← pNat; let nx ← pNat; let x : List α ← pNums nx
+      -- slot ws nx x… costspec eps tol
+      let slot ← pNat; let _ws ← pInt; let nx ← pNat; let x : List α ← pNums nx
       let cs : CostSpec α ← pCostSpec
       let eps : α ← pNum; let tol : α ← pNum
       match getSlot st.opt slot with
@@ -384,8 +411,9 @@ def opOpt (st : St α) (id op : String) : P (St α × List String) := do
 
 def opTM (id : String) : P (List String) := do
   let kind ← pNat
+  let inst ← pNat
   let fn ← tok
-  let tm : TimeMap α := tmOf kind
+  let tm : TimeMap α := tmOf kind inst
   match fn with
   | "toTime" => let x ← pNum; return [s!"{id} r {rs [tm.toTime x]}"]
   | "toTau" => let x ← pNum; return [s!"{id} r {rs [tm.toTau x]}"]
